@@ -219,6 +219,7 @@ func (eng *Engine) report(prop, tier, verifDir string, units []*FuncUnit, report
 	var funcs []map[string]any
 	var samples []map[string]any
 	kinds := map[string]int{}
+	var deadReturns []string
 	var slowest *Obligation
 	for i, r := range reports {
 		if r == nil {
@@ -236,6 +237,12 @@ func (eng *Engine) report(prop, tier, verifDir string, units []*FuncUnit, report
 		nOK, n := 0, 0
 		for _, o := range r.Obligations {
 			if o.Status == "skipped" {
+				continue
+			}
+			if o.Kind == "reach" {
+				if !o.OK() {
+					deadReturns = append(deadReturns, o.Name+" at "+o.Pos)
+				}
 				continue
 			}
 			if o.Kind == "canary" {
@@ -292,6 +299,11 @@ func (eng *Engine) report(prop, tier, verifDir string, units []*FuncUnit, report
 	}
 	for _, u := range eng.undecided {
 		fmt.Println("UNDECIDED:", u)
+	}
+	if verbose {
+		for _, d := range deadReturns {
+			fmt.Println("  note: return unreachable under the contract's assumptions:", d)
+		}
 	}
 	// known findings
 	var violations []*Obligation
@@ -379,7 +391,7 @@ func (eng *Engine) report(prop, tier, verifDir string, units []*FuncUnit, report
 		"checker_cmd": fmt.Sprintf("/verif/check %s --tier %s", prop, tier),
 		"trusted_base": tb, "samples": samples, "functions_under_contract": funcs,
 		"obligation_kinds": kinds, "vacuity_canaries_ok": canaries, "solver_time": st,
-		"known_findings_hit": len(knownHit), "undischarged": len(failed),
+		"known_findings_hit": len(knownHit), "undischarged": len(failed), "returns_unreachable_under_assumptions": deadReturns,
 		"abstractions_used": abs, "load_secs": round3(loadSecs),
 		"integer_semantics": "Go machine integers are SMT Int with range typing; unsigned arithmetic wraps (mod 2^n); signed arithmetic is mathematical unless the function has `safety overflow`; big.Int/Quantity are mathematical integers",
 		"extraction_drops":  "logging/metrics calls and error-message formatting have no modelled effect; callees without contract are abstracted (fresh results; heap havocked); see abstractions_used",
